@@ -34,6 +34,7 @@ func TestVerifOriginDepth(t *testing.T) {
 		t.Skip()
 	}
 	quiet()
+	baseLogging()
 	of, _ := os.Create(out)
 	defer of.Close()
 	bw := bufio.NewWriter(of)
